@@ -470,11 +470,23 @@ func (w *World) latency(key string) time.Duration {
 	return lat
 }
 
+// flagMatch: OnlyFlags is a comma-separated list of stack flags that must be
+// present ("restore") or absent ("!sweep").
 func flagMatch(ft *FaultSpec, flags kernel.Flags) bool {
 	if ft.OnlyFlags == "" {
 		return true
 	}
-	return strings.Contains("+"+flags.String()+"+", "+"+ft.OnlyFlags+"+")
+	have := "+" + flags.String() + "+"
+	for _, want := range strings.Split(ft.OnlyFlags, ",") {
+		if strings.HasPrefix(want, "!") {
+			if strings.Contains(have, "+"+want[1:]+"+") {
+				return false
+			}
+		} else if !strings.Contains(have, "+"+want+"+") {
+			return false
+		}
+	}
+	return true
 }
 
 // nextFault counts the operation on its target and returns the fault planned
